@@ -138,7 +138,20 @@ func checkC06(c TextCase, st *Stats) error {
 var propC06 = Register(Prop[TextCase]{ID: "C06", Name: "C06", Check: checkC06})
 
 func genC06(t *rapid.T) TextCase {
-	switch rapid.IntRange(0, 5).Draw(t, "origin") {
+	switch rapid.IntRange(0, 6).Draw(t, "origin") {
+	case 6: // arbitrary bytes inserted into a valid description under a random layout
+		i := GenIface(t, 3)
+		s := Render(i, RapidLayout{T: t, EOL: "\n"})
+		k := rapid.IntRange(1, 3).Draw(t, "nbytes")
+		for j := 0; j < k; j++ {
+			p := rapid.IntRange(0, len(s)).Draw(t, "bpos")
+			v := byte(rapid.IntRange(0, 255).Draw(t, "bval"))
+			if rapid.Bool().Draw(t, "hard") {
+				v = rapid.SampledFrom([]byte{0, 0x0b, 0x0c, 0x85, 0xa0, 0x1c, 0x1f, 0x7f, 0xc2, 0xe2, 0xff, ';', '{', '"', '\'', '*', '!', '=', '/', '\\'}).Draw(t, "bhard")
+			}
+			s = s[:p] + string([]byte{v}) + s[p:]
+		}
+		return mkTextCase(s, "byte-insert", false)
 	case 0, 1: // random multi-edit mutant of a random valid description
 		i := GenIface(t, 4)
 		return mkTextCase(GenMutant(t, Tokens(i), RapidLayout{T: t, EOL: "\n"}), "mutant", false)
@@ -292,6 +305,59 @@ func TestC06Seqs(t *testing.T) {
 		}
 	}
 	RunCases(t, propC06, "C06Seqs", true, next)
+}
+
+// TestC06Bytes: for a few fixed descriptions, every byte value 0..255 inserted at, and
+// substituted for, every byte position (bounded-exhaustive at the byte level: stray
+// control bytes, Latin-1 "spaces", NUL, non-UTF-8).
+func TestC06Bytes(t *testing.T) {
+	bases := []string{
+		"interface a.b\nmethod F(a: int) -> (b: ?[]string)\n",
+		"# doc\ninterface a.b\n\ntype T (x: [string]int, y: (p, q))\n# d\nmethod F() -> ()\nerror E (why: T)\n",
+		"interface a.b\r\nmethod F()->()\r\nerror E\r\n",
+	}
+	shard, nshards := Shard()
+	bi, pos, val, mode, n := 0, 0, 0, 0, 0
+	next := func() (TextCase, bool) {
+		for bi < len(bases) {
+			b := bases[bi]
+			if pos > len(b) {
+				bi, pos = bi+1, 0
+				continue
+			}
+			cur := fmt.Sprintf("%d/%d/%d/%d", bi, pos, val, mode)
+			_ = cur
+			var out string
+			ok := true
+			if mode == 0 {
+				out = b[:pos] + string([]byte{byte(val)}) + b[pos:]
+			} else if pos < len(b) {
+				out = b[:pos] + string([]byte{byte(val)}) + b[pos+1:]
+			} else {
+				ok = false
+			}
+			// advance the odometer
+			mode++
+			if mode == 2 {
+				mode = 0
+				val++
+				if val == 256 {
+					val = 0
+					pos++
+				}
+			}
+			if !ok {
+				continue
+			}
+			n++
+			if n%nshards != shard {
+				continue
+			}
+			return mkTextCase(out, "byte-edit", false), true
+		}
+		return TextCase{}, false
+	}
+	RunCases(t, propC06, "C06Bytes", true, next)
 }
 
 func FuzzC06(f *testing.F) {
